@@ -87,6 +87,12 @@ def collections(rt):
                         out.append((T("index merge %s with %d-partition" % (how, onp)), df.merge(do, left_index=True, right_index=True, how=how), None))
                         out.append((T("index merge %s of %d-partition" % (how, onp)), do.merge(df, left_index=True, right_index=True, how=how), None))
                     out.append((T("join %d-partition" % onp), df.join(do), None))
+            if nm in ("int-dups", "float", "str"):
+                uniq = list(dict.fromkeys(idx))
+                for lnm, labels in (("ascending", [uniq[1], uniq[4], uniq[7]]), ("unsorted", [uniq[6], uniq[1], uniq[8], uniq[3]]), ("descending", [uniq[8], uniq[5], uniq[2]]),
+                                    ("one partition unsorted", [uniq[1], uniq[0]]), ("last partition unsorted", [uniq[-1], uniq[-3]])):
+                    out.append((T("loc list %s" % lnm), df.loc[labels], None))
+                    out.append((T("loc list %s then loc" % lnm), df.loc[labels].loc[labels[0]:labels[0]] if labels == sorted(labels) else df.loc[labels], None))
             if nm in ("int-dups", "float"):
                 out.append((T("loc slice"), df.loc[idx[2]:idx[9]], pdf.loc[idx[2]:idx[9]]))
                 out.append((T("loc element"), df.loc[idx[5]:idx[5]], pdf.loc[idx[5]:idx[5]]))
